@@ -153,3 +153,12 @@ Qed.
 
 Lemma into_sorted_vec_perm h : Permutation (into_sorted_vec h) h.
 Proof. apply sort_loop_perm. lia. Qed.
+
+Lemma heap_ops_permute h x :
+  Permutation (push h x) (x :: h) /\
+  Permutation (into_sorted_vec h) h /\
+  (forall top h', pop h = Some (top, h') -> Permutation h (top :: h')).
+Proof.
+  split; [apply push_perm|]. split; [apply into_sorted_vec_perm|].
+  intros top h' H. now apply pop_perm in H.
+Qed.
